@@ -87,6 +87,14 @@ func GenScript(r *hx.Rand, kind int, big bool) Script {
 		t := base + gap*uint64(r.Intn(ntimes))
 		s.Init = append(s.Init, Init{T: t, H: uint64(r.Intn(nh)), Sec: r.Bool(), Bud: uint64(r.Intn(maxBud + 1))})
 	}
+	// SetCurrentTime after the initial schedule: mostly absent; sometimes at/below the earliest
+	// event (harmless), rarely after some queued event (dispatchNext must panic)
+	switch r.Pick(20, 2, 1) {
+	case 1:
+		s.T0 = base
+	case 2:
+		s.T0 = base + 1 + uint64(r.Intn(int(gap)*ntimes+2))
+	}
 	return s
 }
 
@@ -164,7 +172,7 @@ func (st Stats) Tags(hooks bool) []string {
 		t = append(t, "equal-time-burst>=20")
 	}
 	if st.Panics > 0 {
-		t = append(t, "malformed:past-time-schedule-panics")
+		t = append(t, "malformed:panics(past-time Schedule / clock set after a queued event)")
 	}
 	if hooks {
 		t = append(t, "trace-via:hooks")
@@ -231,6 +239,14 @@ func ShrinkScript(s Script) []Script {
 	if s.Hooks {
 		c := cp()
 		c.Hooks = false
+		out = append(out, c)
+	}
+	if s.T0 > 0 {
+		c := cp()
+		c.T0 = 0
+		out = append(out, c)
+		c = cp()
+		c.T0 = s.T0 - 1
 		out = append(out, c)
 	}
 	return out
